@@ -69,7 +69,7 @@ theorem isTrue_plan (s : St) (e : Expr) (x : Indexed) (hv : visitNode s.ix e = s
 
 /-- the row decision is the WHERE clause on a row where nothing negated is NULL -/
 theorem rowDecision_safe (s : St) (e : Expr) (p : Nat × Row)
-    (h : ∀ x, visitNode s.ix e = some x → (covered s x.sq).contains (fragOf p.1) = true → NullSafe x.sq p.2 = true) :
+    (h : ∀ x, visitNode s.ix e = some x → (covered s x.sq).contains (fragOf p.1) = true → Safe true x.sq p.2 = true) :
     rowDecision s e p = isTrue e p.2 := by
   unfold rowDecision
   cases hv : visitNode s.ix e with
@@ -78,7 +78,7 @@ theorem rowDecision_safe (s : St) (e : Expr) (p : Nat × Row)
     simp only []
     split
     · rename_i hc
-      rw [isTrue_plan s e x hv, sel2_eq_of_safe x.sq p.2 (h x hv hc)]
+      rw [isTrue_plan s e x hv, (safe_spec x.sq p.2).1 (h x hv hc)]
     · rfl
 
 /-- in general the row decision is bracketed by TRUE and not-FALSE -/
